@@ -495,9 +495,11 @@ pub fn write(spec: &FileSpec, ch: &mut Chooser) -> (Vec<u8>, Layout) {
         for id in &plain {
             let obj = &sec.objects[id];
             if let Object::Stream(s) = obj {
-                let lm = w.ch.choose("stream.length", 4);
-                let len = s.content.len() as i64;
                 let mut dict = s.dict.clone();
+                // a stream dictionary carrying the marker key keeps a direct Length whatever is chosen
+                let keep_direct = dict.remove(b"VerifDirectLength").is_some();
+                let lm = if keep_direct { 0 } else { w.ch.choose("stream.length", 4) };
+                let len = s.content.len() as i64;
                 match lm {
                     1 => {
                         // length object before the stream
@@ -852,6 +854,7 @@ pub fn expected_objects(spec: &FileSpec, lay: &Layout, upto: usize) -> BTreeMap<
             }
             let mut o = o.clone();
             if let Object::Stream(s) = &mut o {
+                s.dict.remove(b"VerifDirectLength");
                 s.dict.set("Length", Object::Integer(s.content.len() as i64));
             }
             m.insert(*id, o);
